@@ -217,6 +217,45 @@ def check_compression_choice(ctx):
         want = z3.If(z3.And(z3.UGT(thr, 0), z3.UGE(vlen, thr)), z3.Extract(7, 0, comp), z3.BitVecVal(0, 8))
         if ctx.sat(p.pc + [tag != want], ob)[0] != z3.unsat:
             bad.append((p, 'compression tag does not follow (threshold > 0 ∧ len ≥ threshold)'))
+    # the batch writer makes the same choice per item, by the item's VALUE length (key length symbolic and independent)
+    bfn = ctx.prog.find(r'writer::<impl>::write_batch$')
+    klen = z3.BitVec('klen', 64)
+    exb = ctx.executor(loop_bound=3, disabled_faults=('J_APPEND', 'J_FLUSH', 'W_INT', 'W_ALL'))
+
+    def setup_b(ex_, st, fr):
+        from ..contract import mk_seq, mk_iter
+        names = ex_.src.struct_fields('journal::writer::Writer')
+        w = Obj('journal::writer::Writer', 'writer', 'struct')
+        w.fields[names.index('compression_threshold')] = Cell(thr)
+        st.pc.append(z3.ULE(comp, bv(1)))
+        w.fields[names.index('compression')] = Cell(EnumV('lsm_tree::CompressionType', comp, 'cfg_comp'))
+        fr.locals[bfn.args[0]] = Cell(Ref(Cell(w)))
+        it = Obj('batch::item::Item', 'item0', 'struct')
+        key = Obj('lsm_tree::Slice', 'item0.key', 'bytes'); key.data['symlen'] = klen
+        val = Obj('lsm_tree::Slice', 'item0.value', 'bytes'); val.data['symlen'] = vlen
+        it.fields[1] = Cell(key); it.fields[2] = Cell(val)
+        seq = mk_seq('Vec<Item>', [it], 'items')
+        fr.locals[bfn.args[1]] = Cell(mk_iter(ex_, st, 'std::slice::Iter<Item>', seq, True))
+        fr.locals[bfn.args[2]] = Cell(bv(1))
+    pathsb = exb.run(bfn, setup=setup_b)
+    ctx.functions_encoded[bfn.key] = ctx.prog.hashes.get(bfn.name, '')
+    ctx.paths_total += len(pathsb)
+    nb = 0
+    for p in pathsb:
+        if p.status != 'returned':
+            continue
+        ap = [e for e in p.events if e.kind == 'J_APPEND']
+        if len(ap) < 2:
+            continue
+        nb += 1; ob.reach += 1
+        u8s = [s_[1] for s_ in ap[1].args['bytes'] if s_[0] == 'u8']
+        if len(u8s) < 3:
+            bad.append((p, 'batch item header malformed')); continue
+        want = z3.If(z3.And(z3.UGT(thr, 0), z3.UGE(vlen, thr)), z3.Extract(7, 0, comp), z3.BitVecVal(0, 8))
+        if ctx.sat(p.pc + [u8s[2] != want], ob)[0] != z3.unsat:
+            bad.append((p, 'write_batch: compression tag of an item does not follow (threshold > 0 ∧ value length ≥ threshold)'))
+    if nb == 0:
+        bad.append((None, 'write_batch: no path appended an item'))
     # the reader never looks at configuration: decode_from has no access to it (its only input is the reader)
     dfn = ctx.prog.find(r'entry::<impl>::decode_from$')
     if len(dfn.args) != 1:
